@@ -1842,3 +1842,19 @@ package flags
 //@   ensures[C13] r != nil ==> findMatch(g, r, strings.ToLower(shortDescription))
 //@   ensures[C13] r == nil ==> forall(J, 0, iterlen(Group.eachGroup, g), !findMatch(g, iterelem(Group.eachGroup, g, J, 0), strings.ToLower(shortDescription)))
 //@   assigns nothing
+
+// C19: the handler that turns tagged struct fields into positional arguments
+// and subcommands (the function literal built by scanSubcommandHandler).
+//@ assumed func (c *Command) AddCommand(command string, shortDescription string, longDescription string, data interface{}) (r *Command, err error)
+//@   ensures err == nil ==> r != nil
+//@   assigns Command.commands
+//@ assumed func (g *Group) scanSubGroupHandler(realval reflect.Value, sfield *reflect.StructField) (ok bool, err error)
+//@ func (c *Command) scanSubcommandHandler_closure1(parentg *Group, realval reflect.Value, sfield *reflect.StructField) (ok bool, err error)
+//@   props C19 C04
+//@   requires c != nil && parentg != nil && sfield != nil
+//@   loop 1 invariant 0 <= i && (old(c.ArgsRequired) ==> c.ArgsRequired) && (i > 0 && len(mtag.Get("required")) != 0 ==> c.ArgsRequired) && len(c.args) == len(old(c.args)) + i
+//@   loop 1 decreases stype.NumField() - i
+//@   at[C19] call append #1: arg != nil && arg.Name == ite(len(m.Get("positional-arg-name")) == 0, field.Name, m.Get("positional-arg-name")) && arg.Description == m.Get("description") && arg.value == realval.Field(i)
+//@   at[C19] call append #1: (m.Get("required") == "" ==> arg.Required == -1 && arg.RequiredMaximum == -1)
+//@   ensures[C19] old(c.ArgsRequired) ==> c.ArgsRequired
+//@   ensures[C19] len(c.args) >= len(old(c.args))
